@@ -57,6 +57,28 @@ fn branch_forms() -> Vec<Kernel> {
             });
         }
     }
+    // a call that is the last instruction of the text and never comes back (its callee ends
+    // the program on that path): an executed instruction without a successor
+    for reached_by_jump in [false, true] {
+        let mut stmts = vec![
+            j("main"),
+            label("exit_if_zero"),
+            inst(Inst::Branch(BOp::Bne, A0, ZERO, "back".into())),
+            li(A7, 10),
+            ecall(),
+            label("back"),
+            ret(),
+            label("main"),
+            li(A0, 1),
+            call("exit_if_zero"),
+            li(A0, 0),
+        ];
+        if reached_by_jump {
+            stmts.extend([j("last"), addi(T0, T0, 1), label("last")]);
+        }
+        stmts.push(call("exit_if_zero"));
+        out.push(Kernel { family: "last-instruction-is-a-call", program: Program { stmts } });
+    }
     out
 }
 
